@@ -85,6 +85,18 @@ def writes_to_arguments(fn: ast.AST, skip: Tuple[str, ...] = ("self", "cls")) ->
                 changed |= _bind(n.target, _borrowed_expr(n.iter, borrowed), borrowed)
             elif isinstance(n, ast.withitem) and n.optional_vars is not None:
                 changed |= _bind(n.optional_vars, _borrowed_expr(n.context_expr, borrowed), borrowed)
+    # a borrowed name that is also bound to a fresh object somewhere (`p = dict(p)`) may denote the copy at the
+    # write (the analysis is flow-insensitive): such writes are reported as uncertain
+    rebound: Set[str] = set()
+    for n in body_nodes:
+        tv: List[Tuple[ast.AST, ast.AST]] = []
+        if isinstance(n, ast.Assign):
+            tv = [(t, n.value) for t in n.targets]
+        elif isinstance(n, ast.AnnAssign) and n.value is not None:
+            tv = [(n.target, n.value)]
+        for t, v in tv:
+            if isinstance(t, ast.Name) and t.id in borrowed and not _borrowed_expr(v, borrowed):
+                rebound.add(t.id)
     out: List[Tuple[str, ast.AST, str]] = []
 
     def root(e: ast.AST) -> Optional[str]:
@@ -126,4 +138,4 @@ def writes_to_arguments(fn: ast.AST, skip: Tuple[str, ...] = ("self", "cls")) ->
             r = base(n.func.value)
             if r is not None:
                 out.append((r, n, f"`{ast.unparse(n)[:70]}` mutates the object passed as `{r}`"))
-    return out
+    return [(r, n, ("?" if r in rebound else "") + d) for r, n, d in out]
